@@ -168,6 +168,11 @@ class A:
   @property
   def ndim(self): return len(self.shape)
 
+  def __len__(self): return self.shape[0]
+
+  def __iter__(self):
+    return iter(self[i] for i in range(self.shape[0]))
+
   @property
   def size(self): return len(self.data)
 
